@@ -10,7 +10,7 @@ import (
 )
 
 func (st *State) assign(o *State) {
-	st.pc, st.cells, st.heap, st.defers, st.taint, st.held = o.pc, o.cells, o.heap, o.defers, o.taint, o.held
+	st.pc, st.cells, st.heap, st.defers, st.taint, st.held, st.xregs = o.pc, o.cells, o.heap, o.defers, o.taint, o.held, o.xregs
 }
 
 // check emits a safety obligation in safe functions and an assumption otherwise.
@@ -184,10 +184,10 @@ func (vc *VC) nilCheck(fx *FuncCtx, st *State, p *PtrV, pos token.Pos) {
 	if p.Kind != PHeap || p.Base == nil {
 		return
 	}
-	if p.Base.Op == "+" && len(p.Base.Args) == 2 && p.Base.Args[0] == vc.A0 {
+	if p.Base.Op == "+" && len(p.Base.Args) == 2 && vc.allocBases[p.Base.Args[0]] {
 		return
 	}
-	if p.Base == vc.A0 {
+	if vc.allocBases[p.Base] {
 		return
 	}
 	vc.check(fx, st, Not(Eq(p.Base, IntC(0))), "nil dereference", pos)
@@ -491,7 +491,7 @@ func (vc *VC) binop(st *State, op token.Token, a, b Val, ta, tb types.Type) Val 
 
 // ---------- strings ----------
 
-func (vc *VC) StrLt(a, b *Term) *Term { return App("str.lt", BoolSort, a, b) }
+func (vc *VC) StrLt(a, b *Term) *Term { return App("gstr.lt", BoolSort, a, b) }
 
 func (vc *VC) StrCat(a, b *Term) *Term {
 	la, oka := strLitValue(a)
@@ -505,7 +505,7 @@ func (vc *VC) StrCat(a, b *Term) *Term {
 	if okb && lb == "" {
 		return a
 	}
-	r := App("str.cat", StrSort, a, b)
+	r := App("gstr.cat", StrSort, a, b)
 	if vc.strDone[r] {
 		return r
 	}
@@ -534,7 +534,7 @@ func (vc *VC) StrSub(s, lo, hi *Term) *Term {
 	if lo.IsConst && lo.Int.Sign() == 0 && hi == StrLen(s) {
 		return s
 	}
-	r := App("str.sub", StrSort, s, lo, hi)
+	r := App("gstr.sub", StrSort, s, lo, hi)
 	if vc.strDone[r] {
 		return r
 	}
@@ -551,7 +551,7 @@ func (vc *VC) StrSub(s, lo, hi *Term) *Term {
 
 // StrMk builds a string from bytes content[off .. off+n).
 func (vc *VC) StrMk(content, off, n *Term) *Term {
-	r := App("str.mk", StrSort, content, off, n)
+	r := App("gstr.mk", StrSort, content, off, n)
 	if vc.strDone[r] {
 		return r
 	}
@@ -586,16 +586,16 @@ func (vc *VC) convert(st *State, v Val, from, to types.Type) Val {
 			case fs == FloatSort && ts == FloatSort:
 				return t
 			case ts == StrSort && fs.Kind == SInt:
-				return App("str.fromrune", StrSort, t)
+				return App("gstr.fromrune", StrSort, t)
 			case ts == StrSort && fs.Kind == SBV:
 				if fs.Width == 8 {
 					// string(byte) for ASCII: single-byte string; otherwise opaque
-					r := App("str.frombyte", StrSort, t)
+					r := App("gstr.frombyte", StrSort, t)
 					vc.addGlobalFact(Implies(BVCmp("bvult", t, BVC(0x80, 8)), And(Eq(StrLen(r), IntC(1)), Eq(StrAt(r, IntC(0)), t))))
 					vc.addGlobalFact(Ge(StrLen(r), IntC(1)))
 					return r
 				}
-				return App("str.fromrune", StrSort, BV2Nat(t))
+				return App("gstr.fromrune", StrSort, BV2Nat(t))
 			case ts == FloatSort:
 				return App("flt.from:"+fs.String(), FloatSort, t)
 			case fs == FloatSort:
@@ -614,7 +614,7 @@ func (vc *VC) convert(st *State, v Val, from, to types.Type) Val {
 				}
 				// []rune: opaque content
 				ref := vc.freshRef()
-				n := App("str.runecount", IntSort, t)
+				n := App("gstr.runecount", IntSort, t)
 				vc.addGlobalFact(And(Ge(n, IntC(0)), Le(n, StrLen(t))))
 				return &SliceV{ref, IntC(0), n, n}
 			}
@@ -627,7 +627,7 @@ func (vc *VC) convert(st *State, v Val, from, to types.Type) Val {
 			content := Select(st.heapVar(ki), sv.Arr)
 			return vc.StrMk(content, sv.Off, sv.Len)
 		}
-		r := Fresh("str.fromrunes", StrSort)
+		r := Fresh("gstr.fromrunes", StrSort)
 		vc.addGlobalFact(Ge(StrLen(r), IntC(0)))
 		return r
 	}
